@@ -8,6 +8,8 @@ CONSTANTS
   Lifecycle = "separate"
   SecondCheck = TRUE
   Filter = TRUE
+  EndKinds = {"cancel", "deadline", "parent"}
+  Honoured = {"cancel", "deadline", "parent"}
   MaxFail = 1
   GiveBack = FALSE
   MaxSteps = 40
